@@ -49,6 +49,14 @@ type Case struct {
 	// Uniform: the members are copies of one request differing only in a
 	// same-length marker (so that their documents have the same length).
 	Uniform bool `json:"uniform,omitempty"`
+
+	// client→backend only (e2e.go): the 307/308 answers the addressed URL
+	// gives before the request arrives at Path, the form of their Location,
+	// and whether net/http's Transport and Server are in the road ("net/http")
+	// or only its Client ("" = in-process round tripper).
+	Hops   []int  `json:"hops,omitempty"`
+	LocURL bool   `json:"location_is_url,omitempty"`
+	Net    string `json:"net,omitempty"`
 }
 
 const (
@@ -342,6 +350,10 @@ func (g *gen) path(maxSegs int) string {
 	return p
 }
 
+// longListSizes, ascending; the smaller ones are drawn more often (they cost
+// less and every cut-off below a size is visible from that size on).
+var longListSizes = []int{999, 1000, 1001, 1023, 1024, 1025, 1500, 2000, 2001, 2047, 2049, 4097, 10001}
+
 // hrefList returns 0..20 paths (min at least), biased to small counts, with
 // the boundary sizes always reachable and occasional duplicates.
 func (g *gen) hrefList(min int) []string {
@@ -359,6 +371,16 @@ func (g *gen) hrefList(min int) []string {
 	if g.chance(25) {
 		// sizes around the round numbers at which an implementation might batch
 		n = []int{99, 100, 101, 128, 150, 200, 201, 257, 513}[g.r.Intn(9)]
+	}
+	if g.chance(120) {
+		// "arbitrary href lists": thousands of entries, sizes next to the
+		// decimal and binary round numbers at which an implementation might
+		// cut, chunk or switch representation
+		i, j := g.r.Intn(len(longListSizes)), g.r.Intn(len(longListSizes))
+		if j < i {
+			i = j
+		}
+		n = longListSizes[i]
 	}
 	var l []string
 	for i := 0; i < n; i++ {
@@ -415,7 +437,9 @@ func escLowerHex(s string) string {
 // genCW builds a client→wire case.
 func genCW(r *rand.Rand) *Case {
 	g := &gen{r: r}
-	cs := &Case{Dir: dirCW, Endpoint: "http://h/"}
+	// The endpoint's own path and user information are not part of an
+	// absolute collection path: the request goes to Path whatever they are.
+	cs := &Case{Dir: dirCW, Endpoint: g.pick([]string{"http://h/", "http://h/", "http://h", "http://h/dav/", "http://h/dav", "http://u:p@h/a%20b/"})}
 	switch r.Intn(5) {
 	case 0:
 		cs.ZoneMode = "utc"
